@@ -39,7 +39,7 @@ def takeNat : List String → Option (Nat × List String)
     | none => none
   | [] => none
 
-def takeCfg (toks : List String) : Option (Cfg × List String) :=
+def takePCfg (toks : List String) : Option (Cfg × List String) :=
   match takeNatList toks with
   | some (inc, r) => match takeNatList r with
     | some (out, r') => some (⟨inc, out⟩, r')
@@ -73,7 +73,7 @@ def parseEvent (toks : List String) : Option Event :=
   | "crash" :: r => match nats r with | some [i] => some (.crash i) | _ => none
   | "restart" :: r => match nats r with | some [i] => some (.restart i) | _ => none
   | "win" :: i :: r =>
-    match i.toNat?, takeCfg r with
+    match i.toNat?, takePCfg r with
     | some i, some (cfg, r') => match takeNatList r' with
       | some (q, []) => some (.win i cfg q)
       | _ => none
@@ -86,7 +86,7 @@ def parseEvent (toks : List String) : Option Event :=
     match i.toNat?, takeApp r with | some i, some (m, []) => some (.recvApp i m) | _, _ => none
   | "ackcommitted" :: r => match nats r with | some [i] => some (.ackCommitted i) | _ => none
   | "commitleader" :: i :: c :: r =>
-    match i.toNat?, c.toNat?, takeCfg r with
+    match i.toNat?, c.toNat?, takePCfg r with
     | some i, some c, some (cfg, r') => match takeNatList r' with
       | some (q, []) => some (.commitLeader i c cfg q)
       | _ => none
